@@ -86,6 +86,45 @@ pub use crate::walk::behavior::{
 };
 pub use crate::walk::glob::GlobEntry;
 
+#[cfg(olson_sean_k_wax_verif)]
+pub use self::verif::{verif_take_events, VerifEvent};
+
+/// Verification hooks (H4): event log of what the traversal yielded and cancelled.
+#[cfg(olson_sean_k_wax_verif)]
+mod verif {
+    use std::cell::RefCell;
+    use std::path::PathBuf;
+
+    /// Event recorded by `WalkTree`.
+    #[derive(Clone, Debug, Eq, PartialEq)]
+    pub enum VerifEvent {
+        /// `WalkTree::next` produced an item.
+        Yield {
+            path: Option<PathBuf>,
+            depth: usize,
+            is_dir: bool,
+            is_err: bool,
+        },
+        /// `WalkTree::cancel_walk_tree` was called; `effective` if it skipped a directory.
+        Cancel { effective: bool },
+        /// `WalkTree::next` reached the end of the traversal.
+        End,
+    }
+
+    thread_local! {
+        static EVENTS: RefCell<Vec<VerifEvent>> = const { RefCell::new(Vec::new()) };
+    }
+
+    pub(super) fn push(event: VerifEvent) {
+        EVENTS.with(|events| events.borrow_mut().push(event));
+    }
+
+    /// Drains the events recorded on the current thread.
+    pub fn verif_take_events() -> Vec<VerifEvent> {
+        EVENTS.with(|events| std::mem::take(&mut *events.borrow_mut()))
+    }
+}
+
 type FileFiltrate<T> = Result<T, WalkError>;
 type FileResidue<R> = TreeResidue<R>;
 type FileFeed<T, R> = (FileFiltrate<T>, FileResidue<R>);
@@ -450,6 +489,10 @@ impl CancelWalk for WalkTree {
         // `IntoIter::skip_current_dir` discards the least recently yielded directory, but
         // `cancel_walk_tree` must act upon the most recently yielded node regardless of its
         // topology (leaf vs. branch).
+        #[cfg(olson_sean_k_wax_verif)]
+        verif::push(VerifEvent::Cancel {
+            effective: self.is_dir,
+        });
         if self.is_dir {
             self.input.skip_current_dir();
         }
@@ -468,6 +511,25 @@ impl Iterator for WalkTree {
             _ => (false, None),
         };
         self.is_dir = is_dir;
+        #[cfg(olson_sean_k_wax_verif)]
+        {
+            let next: &Option<Result<TreeEntry, WalkError>> = &next;
+            verif::push(match next {
+                Some(Ok(ref entry)) => VerifEvent::Yield {
+                    path: Some(entry.path().to_path_buf()),
+                    depth: entry.depth(),
+                    is_dir,
+                    is_err: false,
+                },
+                Some(Err(ref error)) => VerifEvent::Yield {
+                    path: error.path().map(From::from),
+                    depth: error.depth(),
+                    is_dir,
+                    is_err: true,
+                },
+                None => VerifEvent::End,
+            });
+        }
         next
     }
 }
@@ -711,6 +773,19 @@ where
 pub struct Not<I> {
     input: I,
     filter: FilterAny,
+}
+
+#[cfg(olson_sean_k_wax_verif)]
+impl<I> Not<I> {
+    /// Verification hook (H3): patterns of the exhaustive and nonexhaustive partitions.
+    pub fn verif_partition_patterns(&self) -> (Option<String>, Option<String>) {
+        self.filter.verif_partition_patterns()
+    }
+
+    /// Verification hook (H3): residue for candidate path text.
+    pub fn verif_residue(&self, candidate: &str) -> Option<EntryResidue> {
+        self.filter.verif_residue(candidate)
+    }
 }
 
 impl<I> CancelWalk for Not<I>
